@@ -334,7 +334,8 @@ func c16GetColor(c *Ctx, p *Prog) {
 	}
 	ok, detail := false, "no hexadecimal parse found"
 	okLen := false // the parse is reached only by names of the form '#' + six characters
-	eachInstr(fn, func(in ssa.Instruction) {
+	host, _ := cssHost(p, fn)
+	eachInstr(host, func(in ssa.Instruction) {
 		cc := callCommon(in)
 		if cc == nil {
 			return
@@ -656,19 +657,20 @@ func c16Text(c *Ctx, p *Prog) {
 	c.Check(okGate, "C16-R6", "CSS:invalid→empty", p.pos(css.Pos()), "returns \"\" on the !Valid() edge")
 	// GetColor
 	okParse, pd := false, "no ParseUint"
-	for _, in := range callsNamed(gc, "strconv.ParseUint") {
+	gcHost, gcPar := cssHost(p, gc)
+	for _, in := range callsNamed(gcHost, "strconv.ParseUint") {
 		cc := callCommon(in)
 		sl, isSl := cc.Args[0].(*ssa.Slice)
 		base, okB := constInt(cc.Args[1])
 		bits, okS := constInt(cc.Args[2])
 		lowOne := false
-		if isSl && sl.X == ssa.Value(gc.Params[0]) && sl.High == nil {
+		if isSl && gcPar != nil && sl.X == ssa.Value(gcPar) && sl.High == nil {
 			if k, isK := constInt(sl.Low); isK && k == 1 {
 				lowOne = true
 			}
 		}
 		// or what strings.TrimPrefix(name, "#") leaves (under HasPrefix(name, "#") that is name[1:])
-		if tc, isCall := cc.Args[0].(*ssa.Call); isCall && calleeName(&tc.Call) == "strings.TrimPrefix" && len(tc.Call.Args) == 2 && tc.Call.Args[0] == ssa.Value(gc.Params[0]) {
+		if tc, isCall := cc.Args[0].(*ssa.Call); isCall && calleeName(&tc.Call) == "strings.TrimPrefix" && len(tc.Call.Args) == 2 && gcPar != nil && tc.Call.Args[0] == ssa.Value(gcPar) {
 			if lit, isLit := constString(tc.Call.Args[1]); isLit && lit == "#" {
 				lowOne = true
 			}
@@ -908,29 +910,69 @@ func negTok(op token.Token) token.Token {
 // cssFormGuards: what is known about `name` where block b runs — that it is seven bytes long
 // (len(name) == 7, or len(name[k:]) == 7-k for the rest after a k-byte prefix) and that it starts with
 // '#' (name[0] == '#', or strings.HasPrefix(name, "#")).
+// cssHost: the function that parses the "#rrggbb" form — GetColor itself or the helper it hands its
+// argument to — and that function's parameter holding the string.
+func cssHost(p *Prog, gc *ssa.Function) (*ssa.Function, *ssa.Parameter) {
+	if gc == nil || len(gc.Params) == 0 {
+		return gc, nil
+	}
+	if len(callsNamed(gc, "strconv.ParseUint"))+len(callsNamed(gc, "strconv.ParseInt"))+len(callsNamed(gc, "strconv.Atoi")) > 0 {
+		return gc, gc.Params[0]
+	}
+	host, par := gc, gc.Params[0]
+	eachInstr(gc, func(in ssa.Instruction) {
+		cc := callCommon(in)
+		if cc == nil {
+			return
+		}
+		h := cc.StaticCallee()
+		if h == nil || h.Pkg != gc.Pkg || len(h.Blocks) == 0 {
+			return
+		}
+		if len(callsNamed(h, "strconv.ParseUint"))+len(callsNamed(h, "strconv.ParseInt"))+len(callsNamed(h, "strconv.Atoi")) == 0 {
+			return
+		}
+		for i, a := range cc.Args {
+			if a == ssa.Value(gc.Params[0]) && i < len(h.Params) {
+				host, par = h, h.Params[i]
+			}
+		}
+	})
+	return host, par
+}
+
 func cssFormGuards(b *ssa.BasicBlock) (hasLen, hasHash bool) {
+	pn := "name"
+	if f := b.Parent(); f != nil {
+		for _, q := range f.Params {
+			if bt, ok := q.Type().Underlying().(*types.Basic); ok && bt.Kind() == types.String {
+				pn = q.Name()
+				break
+			}
+		}
+	}
 	for _, g := range guardsAt(b) {
 		if g.Op != "==" {
 			continue
 		}
-		if g.L == "len(name)" && g.R == "7" {
+		if g.L == "len("+pn+")" && g.R == "7" {
 			hasLen = true
 		}
 		var k, n int
-		if c, err := fmt.Sscanf(g.L+" "+g.R, "len(name[%d:]) %d", &k, &n); err == nil && c == 2 && k+n == 7 {
+		if c, err := fmt.Sscanf(g.L+" "+g.R, "len("+pn+"[%d:]) %d", &k, &n); err == nil && c == 2 && k+n == 7 {
 			hasLen = true
 		}
-		if strings.HasPrefix(g.L, "name[0]") && (g.R == "35" || g.R == "'#'") {
+		if strings.HasPrefix(g.L, pn+"[0]") && (g.R == "35" || g.R == "'#'") {
 			hasHash = true
 		}
 		// the rest after the one-byte prefix has six characters
-		if strings.HasPrefix(g.L, "len(strings.TrimPrefix(name,\"#\")") && g.R == "6" {
+		if strings.HasPrefix(g.L, "len(strings.TrimPrefix("+pn+",\"#\")") && g.R == "6" {
 			hasLen = true
 		}
 	}
 	for _, g := range rawGuardsAt(b) {
 		if call, ok := g.Cond.(*ssa.Call); ok && g.Positive && calleeName(&call.Call) == "strings.HasPrefix" && len(call.Call.Args) == 2 {
-			if lit, isLit := constString(call.Call.Args[1]); isLit && lit == "#" && valName(call.Call.Args[0]) == "name" {
+			if lit, isLit := constString(call.Call.Args[1]); isLit && lit == "#" && valName(call.Call.Args[0]) == pn {
 				hasHash = true
 			}
 		}
